@@ -1,24 +1,44 @@
 (* C11 - The bit-parallel distance kernel equals the edit distance it stands for.
-   PARTIAL.  Proved: the one-word routine bpm() - as restated bit by bit in BpmBits.v, with '+' as binary
-   addition with carry propagation modulo 2^64 - returns, for every text and every pattern of 1..63 symbols,
-   exactly the value of the column recurrence D[i][j] = min(D[i-1][j-1] + [p_i <> t_j], D[i-1][j] + 1,
-   D[i][j-1] + 1), D[0][j] = 0, D[i][0] = i minimised over the columns (Sellers' semi-global edit-distance
-   recurrence, [sed]).  The proof is the Myers/Hyyro argument made explicit: the cell function on delta
-   encodings, a row-serial column step equal to the recurrence, and the word-level formulas equal to the
-   row-serial step because the adder's carry chain is the chain of "horizontal delta = -1".
-   NOT yet theorems (full statements kept below as Definitions): the blocked routine (carries between 64-row
-   blocks, wildcard padding of the last block and the text padding), the 256-bit variant (lane-wise add256),
-   and that the column recurrence equals the minimum over substrings of the Levenshtein distance.  They are
-   decided on every run by comparing the executable models (bit-list and N-based, all three routines) and the
-   implementation (AVX2 and scalar builds) with each other and with [sed]: exhaustively for small alphabets
-   and lengths, at random around every multiple of 64 up to the 1024 cap. *)
+   Proved, for EVERY text and EVERY pattern (no bound on lengths, any symbols), over the bit-level model of
+   bpm.c (BpmBits.v: a uint64_t is 64 bits, '+' is binary addition with carry propagation modulo 2^64,
+   '<< 1' drops the top bit):
+     C11_block : the blocked routine bpm_block - the one kalign uses - returns the minimum over the columns of
+                 Sellers' semi-global recurrence D[i][j] = min(D[i-1][j-1] + [p_i <> t_j], D[i-1][j] + 1,
+                 D[i][j-1] + 1), D[0][j] = 0, D[i][0] = i for the first 1024 pattern symbols ([sed]);
+     C11_bpm64 : the one-word routine bpm returns the same for patterns of 1..63 symbols, hence the two agree.
+   The proof is the Myers/Hyyro argument made explicit: the cell function on delta encodings; a row-serial
+   column step equal to the recurrence; the word-level formulas (both bpm's and bpm_advance_block's) equal to
+   the row-serial step because the adder's carry chain IS the chain of "horizontal delta = -1"; blocks chained
+   by the border delta; the active-block bookkeeping shown inert (score <= m + 63 < maxd + 64); and the
+   wildcard padding of the last block together with the text padding shown neutral (a two-sided bound on the
+   wildcard rows).
+   NOT theorems (kept as Definitions / tests): the 256-bit variant bpm_256 (lane-wise add256), and that the
+   recurrence [sed] equals the minimum over substrings of the Levenshtein distance (Sellers 1980).  The former
+   is decided on every run by model/implementation/specification correspondence. *)
 From KV Require Import Base Bpm BpmProofs BpmBits BpmBitsProofs.
 Local Open Scope Z_scope.
 
-Theorem C11_bpm64_is_the_column_recurrence : forall t p, (1 <= length p <= 63)%nat ->
+Theorem C11_block : forall t p, (1 <= length p)%nat ->
+  bpm_block_bits t p = sed t (firstn 1024 p).
+Proof. exact bpm_block_bits_is_sed. Qed.
+Print Assumptions C11_block.
+
+Theorem C11_bpm64 : forall t p, (1 <= length p <= 63)%nat ->
   bpm64_bits t p = sed t p.
 Proof. intros t p H. apply bpm64_bits_is_sed. exact H. Qed.
-Print Assumptions C11_bpm64_is_the_column_recurrence.
+Print Assumptions C11_bpm64.
+
+Corollary C11_bpm64_agrees_with_block : forall t p, (1 <= length p <= 63)%nat ->
+  bpm64_bits t p = bpm_block_bits t p.
+Proof.
+  intros t p H. rewrite C11_bpm64 by exact H. rewrite C11_block by lia.
+  rewrite firstn_all2 by lia. reflexivity.
+Qed.
+
+(* the padding argument on its own: W wildcard rows below the pattern and W extra text columns change nothing *)
+Theorem C11_padding_is_neutral : forall q, (1 <= length q)%nat -> forall Wd t,
+  sedg (rowsP q Wd) (length q + Wd) (Z.of_nat (length q)) (t ++ repeat 0 Wd) = sed t q.
+Proof. exact padding_neutral. Qed.
 
 (* the three layers of the argument, each for all inputs *)
 Theorem C11_cell_function : forall (e vp vn hp hn : bool) (a : Z), vp && vn = false -> hp && hn = false ->
@@ -38,9 +58,6 @@ Print Assumptions C11_word_formulas_are_the_serial_step.
 
 Definition symbols13 (l : list Z) : Prop := Forall (fun c => 0 <= c < 13) l.
 
-Definition C11_block_full_statement : Prop := forall t p,
-  symbols13 t -> symbols13 p -> (1 <= length p <= length t)%nat ->
-  bpm_block_bits t p = sed t (firstn 1024 p).
 Definition C11_bpm256_full_statement : Prop := forall t p,
   symbols13 t -> symbols13 p -> (1 <= length p <= 255)%nat -> (length p <= length t)%nat ->
   bpm256 t p = sed t p.
